@@ -260,3 +260,13 @@ chk("C04", TV,
     "the end must hold the value last assigned to it (plain store reference); all memory accesses inside their regions",
     BASE_NOTE + " Subprogram locals overlapping another instance's local are a recorded finding and outside the claim.",
     "symbolic execution of the emitted eBPF bytes (z3 bit-vectors) against a plain store reference", "A:8/C04")
+
+chk("C05", TV,
+    "every program assembled by the generators of C01, C03, C04, C07, C08, C09, C19 (seeded samples), ktime/prandom programs and "
+    "the library's own programs (fast sync groups with each bundled device, dispatcher) is decided twice: the emitted bytes run "
+    "symbolically over all paths and z3 discharges the verifier's necessary conditions (registers initialised before use, helper "
+    "arguments, r0 at exit, every access inside stack / context / null-checked map value / guarded packet, all paths end), and -- "
+    "when bpf() is usable -- the maps are created in the running kernel and BPF_PROG_LOAD gives the verifier's own verdict; a "
+    "solver counterexample is confirmed by the kernel's rejection",
+    BASE_NOTE + " The solver side covers necessary conditions only; acceptance is the kernel's verdict where available.",
+    "symbolic execution of the emitted eBPF bytes (z3) for the verifier's necessary conditions, cross-checked with the kernel verifier", "A:8/C05")
